@@ -391,4 +391,24 @@ example :
     one.2.length = 123 ∧ r.2 = one.1 := by
   decide +kernel
 
+/-- **C01 (a segment clears every multiple that lies in it, at byte level)**: from a stored state that denotes p·q relative to
+    the segment start L (p ≥ 30), the cross-off loop over a segment of S bytes clears — at its own byte < S and its own bit —
+    EVERY multiple p·x with x ≥ q coprime to the wheel that lies in the segment (p·x ≤ L + 30·S + 6).  With
+    C01_crossoff_one_segment (nothing but walk positions is cleared, the stored state denotes the next one relative to
+    L + 30·S) and C01_crossoff_across_segments this is the per-prime half of "bit = prime" for the real loop shape. -/
+theorem C01_segment_clears_multiples (big : Bool) (L S : Nat) (s : Wheel.SP) (q : Nat)
+    (h : Wheel.Denotes (if big then 210 else 30) L s q) (hsp : 0 < s.sp)
+    (x : Nat) (hx : q ≤ x) (hg : Nat.gcd x (if big then 210 else 30) = 1)
+    (hin : Wheel.primeOf (if big then 210 else 30) s * x ≤ L + 30 * S + 6) :
+    ∃ e ∈ (Wheel.crossSeg (if big then 210 else 30) S (S + 1) s []).2, e.1 < S ∧ e.2 < 8 ∧
+      Wheel.primeOf (if big then 210 else 30) s * x = L + 30 * e.1 + Wheel.offs.getD e.2 0 := by
+  cases big
+  · simp only [Bool.false_eq_true, if_false] at *
+    exact Wheel.crossSeg_clears 30 L S (by decide +kernel) (Wheel.hstep30 L) (fun s q x => Wheel.walk_reaches30 L s q x)
+      (by have e : (Wheel.cls 30).length = 8 := by decide +kernel
+          rw [e]; exact Wheel.bit30_lt) s q h hsp x hx hg hin
+  · simp only [if_true] at *
+    exact Wheel.crossSeg_clears 210 L S (by rw [Wheel.cls210_len]; decide) (Wheel.hstep210 L) (fun s q x => Wheel.walk_reaches210 L s q x)
+      (by rw [Wheel.cls210_len]; exact Wheel.bit210_lt) s q h hsp x hx hg hin
+
 end Ps.Props
